@@ -81,6 +81,8 @@ def build(ws, kind):
         d = rx.add_data({"ch1": {"values": np.arange(6.0)}, "ch2": {"values": np.arange(6.0) + 1}})
         rx.add_components_data({"dBdt": d})
         rx.add_data({"Transmitter": {"values": np.arange(6.0) + 30}, "ID": {"values": np.arange(6.0) + 40}})
+        # the reserved channel names themselves, on a survey class that does not rebuild such channels: ordinary data here
+        rx.add_data({"Transmitter ID": {"values": np.arange(6.0) + 50}, "A-B Cell ID": {"values": np.arange(6.0) + 60}})
         return rx
     if kind == "dcip":
         from geoh5py.objects import CurrentElectrode, PotentialElectrode
@@ -102,6 +104,7 @@ def build(ws, kind):
         base = TipperBaseStations.create(ws, name="base", vertices=_verts(1, off=3.0))
         rx.base_stations = base
         rx.channels = [10.0, 20.0]
+        rx.add_data({"Transmitter ID": {"values": np.arange(6.0) + 70}})
         return rx
     if kind == "root":
         # the Root group itself, holding an object and a group
